@@ -78,7 +78,7 @@ pub fn tuple_destructure(tpl_dstrct: &TupleDestructure, p: &Interpreter) -> MRes
   for (i, var) in tpl_dstrct.vars.iter().enumerate() {
     let id = var.hash();
     if let Some(element) = tpl.borrow().get(i) {
-      symbols_brrw.insert(id, element.clone(), true);
+      symbols_brrw.insert(id, element.clone(), false);
       symbols_brrw.dictionary.borrow_mut().insert(id, var.name.to_string());
     }
   }
